@@ -54,6 +54,28 @@ func c19Selects(s *influxql.SelectStatement, out []*influxql.SelectStatement) []
 	return out
 }
 
+// c19Edit renames the database of every measurement of a SELECT in place: sources at any depth and INTO targets.
+func c19Edit(s *influxql.SelectStatement) {
+	ren := func(m *influxql.Measurement) {
+		if m.Database == "" {
+			m.Database = "dflt"
+		} else {
+			m.Database += "x"
+		}
+	}
+	if s.Target != nil && s.Target.Measurement != nil {
+		ren(s.Target.Measurement)
+	}
+	for _, src := range s.Sources {
+		switch x := src.(type) {
+		case *influxql.Measurement:
+			ren(x)
+		case *influxql.SubQuery:
+			c19Edit(x.Statement)
+		}
+	}
+}
+
 func c19Kind(st influxql.Statement) string {
 	t := reflect.TypeOf(st)
 	for t.Kind() == reflect.Ptr {
@@ -109,6 +131,43 @@ func init() {
 				sel = []interface{}{}
 			}
 			o["sel"] = sel
+			// second step of a history: the statement is edited in place (every database renamed: "" -> "dflt",
+			// d -> dx; sources at any depth and INTO targets) and asked again; then a CLONE taken after the first
+			// question is edited and asked.  What a statement requires is a function of the statement as it is now.
+			if p := guard(func() { c19Edit(root) }); p != "" {
+				o["edit_panic"] = p
+				return o
+			}
+			o["edited"] = c19Call(st.RequiredPrivileges)
+			esel := []interface{}{}
+			for _, s := range all {
+				esel = append(esel, c19Call(s.RequiredPrivileges))
+			}
+			o["edited_sel"] = esel
+			if st2, err2 := influxql.ParseStatement(text); err2 == nil {
+				var root2 *influxql.SelectStatement
+				switch x := st2.(type) {
+				case *influxql.SelectStatement:
+					root2 = x
+				case *influxql.ExplainStatement:
+					root2 = x.Statement
+				case *influxql.CreateContinuousQueryStatement:
+					root2 = x.Source
+				}
+				if root2 != nil {
+					guard(func() { root2.RequiredPrivileges() })
+					var cl *influxql.SelectStatement
+					if p := guard(func() { cl = root2.Clone(); c19Edit(cl) }); p != "" {
+						o["edit_panic"] = p
+						return o
+					}
+					csel := []interface{}{}
+					for _, s := range c19Selects(cl, nil) {
+						csel = append(csel, c19Call(s.RequiredPrivileges))
+					}
+					o["clone_edited_sel"] = csel
+				}
+			}
 		}
 		return o
 	}})
